@@ -1,5 +1,6 @@
 (* C24 — lemmas. *)
 From Coq Require Import List Bool Arith Lia String.
+Open Scope nat_scope.
 Import ListNotations.
 From Verif Require Import Lib.Corr Gen.C24 Model.C24.
 
@@ -51,78 +52,149 @@ Proof.
   intros max ls s Hr. destruct (bound_all_interleavings _ max ls s current_source_safe Hr) as [H1 [H2 _]]. auto.
 Qed.
 
-Lemma exec_op_inv : forall dofs max s o s', (forall e, dofs e = false) ->
-  inv max s -> exec_op dofs max s o = Some s' -> inv max s'.
+(* ---- several gates (configuration reloads) ---- *)
+(* tie T: in the CURRENT source Start and the deferred Done are called on one
+   binding of the gate in both handlers *)
+Lemma current_source_same_gate : forall e, same_gate e = true.
+Proof. intros [|]; vm_compute; reflexivity. Qed.
+
+Definition minv (gs : mstate) : Prop := Forall (fun g => inv (fst g) (snd g)) gs.
+
+Lemma minv_init : forall max, minv (minit max).
+Proof. intro max. constructor; [apply inv_init|constructor]. Qed.
+
+Lemma upd_gate_inv : forall f i gs gs',
+  (forall g g', inv (fst g) (snd g) -> f g = Some g' -> inv (fst g') (snd g')) ->
+  minv gs -> upd_gate i f gs = Some gs' -> minv gs'.
 Proof.
-  intros dofs max s o s' Hd Hi He. unfold exec_op in He.
-  destruct (op_enabled s o); [|discriminate].
-  destruct (run dofs max s (op_labels o)) as [s1|] eqn:E1; [|discriminate].
-  eapply run_inv; [exact Hd| |exact He]. eapply run_inv; eauto.
+  intros f i gs. revert i. induction gs as [|g r IH]; intros i gs' Hf Hi Hu; [destruct i; discriminate|].
+  inversion Hi as [|? ? Hg Hr]; subst. destruct i as [|j]; cbn [upd_gate] in Hu.
+  - destruct (f g) as [g'|] eqn:E; [|discriminate]. inversion Hu; subst. constructor; [eapply Hf; eauto|exact Hr].
+  - destruct (upd_gate j f r) as [r'|] eqn:E; [|discriminate]. inversion Hu; subst.
+    constructor; [exact Hg|]. eapply IH; eauto.
+Qed.
+
+Lemma on_gate_inv : forall dofs l g g', (forall e, dofs e = false) ->
+  inv (fst g) (snd g) -> on_gate dofs l g = Some g' -> inv (fst g') (snd g').
+Proof.
+  intros dofs l [cap s] g' Hd Hi H. unfold on_gate in H. cbn [fst snd] in *.
+  destruct (step dofs cap s l) as [s'|] eqn:E; [|discriminate]. inversion H; subst. cbn [fst snd].
+  eapply step_inv; eauto.
+Qed.
+
+Lemma mstep_inv : forall dofs same gs l gs', (forall e, dofs e = false) -> (forall e, same e = true) ->
+  minv gs -> mstep dofs same gs l = Some gs' -> minv gs'.
+Proof.
+  intros dofs same gs l gs' Hd Hs Hi H. destruct l as [i l|i e|max]; cbn [mstep] in H.
+  - destruct l; try discriminate;
+      (eapply upd_gate_inv; [|exact Hi|exact H]; intros g g' Hg Hgg; eapply on_gate_inv; eauto).
+  - rewrite Hs in H. eapply upd_gate_inv; [|exact Hi|exact H]. intros g g' Hg Hgg. eapply on_gate_inv; eauto.
+  - inversion H; subst. apply Forall_app. split; [exact Hi|]. constructor; [apply inv_init|constructor].
+Qed.
+
+Lemma mrun_inv : forall dofs same ls gs gs', (forall e, dofs e = false) -> (forall e, same e = true) ->
+  minv gs -> mrun dofs same gs ls = Some gs' -> minv gs'.
+Proof.
+  intros dofs same ls. induction ls as [|l ls IH]; intros gs gs' Hd Hs Hi Hr; cbn [mrun] in Hr.
+  - inversion Hr; subst; exact Hi.
+  - destruct (mstep dofs same gs l) as [g1|] eqn:E; [|discriminate].
+    apply (IH g1 gs' Hd Hs); [|exact Hr]. exact (mstep_inv dofs same gs l g1 Hd Hs Hi E).
+Qed.
+
+(* every gate, old or new, in every interleaving of arrivals, admissions,
+   cancellations, completions, deferred Dones and configuration reloads *)
+Lemma per_gate_bound : forall dofs same max ls gs, (forall e, dofs e = false) -> (forall e, same e = true) ->
+  mrun dofs same (minit max) ls = Some gs ->
+  Forall (fun g => working (snd g) <= fst g /\ panics (snd g) = 0 /\ tokens (snd g) = working (snd g) + exiting (snd g)) gs.
+Proof.
+  intros dofs same max ls gs Hd Hs Hr.
+  pose proof (mrun_inv dofs same ls (minit max) gs Hd Hs (minv_init max) Hr) as Hi.
+  eapply Forall_impl; [|exact Hi]. intros [cap s] [H1 [H2 H3]]. cbn [fst snd] in *. lia.
+Qed.
+
+Lemma per_gate_bound_current_source : forall max ls gs,
+  mrun done_on_failed_start same_gate (minit max) ls = Some gs ->
+  Forall (fun g => working (snd g) <= fst g /\ panics (snd g) = 0) gs.
+Proof.
+  intros max ls gs Hr.
+  pose proof (per_gate_bound _ _ max ls gs current_source_safe current_source_same_gate Hr) as H.
+  eapply Forall_impl; [|exact H]. intros g [A [B _]]. auto.
+Qed.
+
+Lemma exec_op_inv : forall dofs same gs o gs', (forall e, dofs e = false) -> (forall e, same e = true) ->
+  minv gs -> exec_op dofs same gs o = Some gs' -> minv gs'.
+Proof.
+  intros dofs same gs o gs' Hd Hs Hi He. unfold exec_op in He.
+  destruct (op_enabled gs o); [|discriminate].
+  destruct (mrun dofs same gs (op_labels gs o)) as [g1|] eqn:E1; [|discriminate].
+  eapply mrun_inv; [exact Hd|exact Hs| |exact He]. eapply mrun_inv; eauto.
 Qed.
 
 (* what the harness' schedule controller does is a run of the LTS *)
-Lemma exec_op_is_run : forall dofs max s o s', exec_op dofs max s o = Some s' ->
-  exists ls, run dofs max s ls = Some s'.
+Lemma exec_op_is_run : forall dofs same gs o gs', exec_op dofs same gs o = Some gs' ->
+  exists ls, mrun dofs same gs ls = Some gs'.
 Proof.
-  intros dofs max s o s' He. unfold exec_op in He.
-  destruct (op_enabled s o); [|discriminate].
-  destruct (run dofs max s (op_labels o)) as [s1|] eqn:E1; [|discriminate].
-  exists (op_labels o ++ admits max s1).
-  revert s E1. induction (op_labels o) as [|l ls IH]; intros s0 E1; cbn in *.
+  intros dofs same gs o gs' He. unfold exec_op in He.
+  destruct (op_enabled gs o); [|discriminate].
+  destruct (mrun dofs same gs (op_labels gs o)) as [g1|] eqn:E1; [|discriminate].
+  exists (op_labels gs o ++ all_admits 0 g1).
+  remember (op_labels gs o) as l0 eqn:El. clear El. revert gs E1.
+  induction l0 as [|l ls IH]; intros gs0 E1; cbn [mrun app] in *.
   - inversion E1; subst. exact He.
-  - destruct (step dofs max s0 l) as [s2|]; [|discriminate]. apply IH. exact E1.
+  - destruct (mstep dofs same gs0 l) as [g2|]; [|discriminate]. apply IH. exact E1.
 Qed.
 
-Lemma follows_pred : forall dofs max steps s, (forall e, dofs e = false) -> inv max s ->
-  follows dofs max s steps = true -> forallb (fun st => snap_ok max (snd st)) steps = true.
+Lemma sum_panics_zero : forall gs, Forall (fun g => panics (snd g) = 0) gs -> sum_of panics gs = 0.
+Proof. intros gs H. induction H as [|g r Hg _ IH]; cbn [sum_of fold_right]; [reflexivity|]. fold (sum_of panics r). lia. Qed.
+
+Lemma follows_pred : forall dofs same steps gs, (forall e, dofs e = false) -> (forall e, same e = true) -> minv gs ->
+  follows dofs same gs steps = true -> forallb (fun st => snap_ok (snd st)) steps = true.
 Proof.
-  intros dofs max steps. induction steps as [|[o obs] r IH]; intros s Hd Hi Hf; [reflexivity|].
-  cbn [follows] in Hf. destruct (exec_op dofs max s o) as [s'|] eqn:E; [|discriminate].
-  apply andb_true_iff in Hf as [Hs Hf].
-  pose proof (exec_op_inv dofs max s o s' Hd Hi E) as Hi'.
+  intros dofs same steps. induction steps as [|[o obs] r IH]; intros gs Hd Hs Hi Hf; [reflexivity|].
+  cbn [follows] in Hf. destruct (exec_op dofs same gs o) as [gs'|] eqn:E; [|discriminate].
+  apply andb_true_iff in Hf as [Hsn Hf].
+  pose proof (exec_op_inv dofs same gs o gs' Hd Hs Hi E) as Hi'.
   cbn [forallb snd]. apply andb_true_iff. split; [|eapply IH; eauto].
-  destruct obs as [[[[w wt] f] c] p]. unfold snap_of, snap_eqb in Hs.
-  repeat (apply andb_true_iff in Hs as [Hs ?]).
-  apply Nat.eqb_eq in Hs. apply Nat.eqb_eq in H.
-  destruct Hi' as [I1 [I2 I3]]. unfold snap_ok. apply andb_true_iff. split.
-  - apply Nat.leb_le. lia.
-  - apply Nat.eqb_eq. lia.
+  destruct obs as [[[og ofin] oc] op]. unfold snap_of, snap_eqb in Hsn.
+  apply andb_true_iff in Hsn as [Hsn Hp]. apply andb_true_iff in Hsn as [Hsn _]. apply andb_true_iff in Hsn as [Hg _].
+  apply Nat.eqb_eq in Hp.
+  unfold snap_ok. apply andb_true_iff. split.
+  - (* every observed gate entry equals the model's, which is within its capacity *)
+    clear -Hg Hi'. revert og Hg. induction Hi' as [|[cap s] gr Hinv _ IHg]; intros og Hg.
+    + destruct og; [reflexivity|discriminate].
+    + destruct og as [|[[c w] wt] og']; [discriminate|]. cbn [map list_eqb] in Hg.
+      apply andb_true_iff in Hg as [H1 H2]. cbn [forallb]. apply andb_true_iff. split; [|apply IHg; exact H2].
+      unfold gsnap_eqb in H1. cbn [fst snd] in H1.
+      apply andb_true_iff in H1 as [H1 _]. apply andb_true_iff in H1 as [Hc Hw].
+      apply Nat.eqb_eq in Hc. apply Nat.eqb_eq in Hw. destruct Hinv as [I1 [I2 I3]]. cbn [fst snd] in *.
+      apply Nat.leb_le. lia.
+  - apply Nat.eqb_eq. rewrite <- Hp. apply sum_panics_zero.
+    eapply Forall_impl; [|exact Hi']. intros g [_ [_ H]]. exact H.
 Qed.
 
 Lemma corr_implies_pred : forall c, corr_ok c = true -> pred_ok c = true.
 Proof.
   intros [max steps] H. cbn in *. eapply follows_pred; eauto.
   - exact current_source_safe.
-  - apply inv_init.
+  - exact current_source_same_gate.
+  - apply minv_init.
 Qed.
 
-(* every schedule of operations can be followed by the model (it never gets
-   stuck on an enabled operation), so the statement above is not vacuous *)
-Lemma exec_op_defined : forall dofs max s o, (forall e, dofs e = false) -> inv max s ->
-  op_enabled s o = true ->
-  (match o with OCancel _ => 0 < waiting s | OFinish => 0 < working s | _ => True end) ->
-  exists s', exec_op dofs max s o = Some s'.
-Proof.
-  intros dofs max s o Hd Hi Hen Hpre. unfold exec_op. rewrite Hen.
-  assert (Hadm : forall s1, inv max s1 -> exists s2, run dofs max s1 (admits max s1) = Some s2).
-  { intros s1. unfold admits. generalize (eq_refl (Nat.min (waiting s1) (max - tokens s1))).
-    generalize (Nat.min (waiting s1) (max - tokens s1)) at 1 3 as k. intro k. revert s1.
-    induction k as [|k IH]; intros s1 Hk Hi1; cbn [repeat run].
-    - eexists; reflexivity.
-    - destruct s1 as [t wt wk ex fi ca pa]. cbn in Hk. cbn [step waiting tokens].
-      destruct wt as [|w]; [lia|]. destruct (Nat.ltb_spec t max); [|lia].
-      apply IH.
-      + cbn. lia.
-      + destruct Hi1 as [A [B C]]. cbn in *. unfold inv; cbn. lia. }
-  destruct s as [t wt wk ex fi ca pa]. destruct Hi as [A [B C]]. cbn in A, B, C.
-  destruct o as [e|e|e| | |]; cbn [op_labels run step waiting working tokens exiting] in *.
-  - apply Hadm. unfold inv; cbn; lia.
-  - rewrite Hd. apply Hadm. unfold inv; cbn; lia.
-  - destruct wt as [|w]; [lia|]. rewrite Hd. apply Hadm. unfold inv; cbn; lia.
-  - apply Hadm. unfold inv; cbn; lia.
-  - destruct wk as [|w]; [lia|]. cbn. destruct t as [|t]; [lia|]. cbn. apply Hadm. unfold inv; cbn; lia.
-  - apply Hadm. unfold inv; cbn; lia.
-Qed.
+(* ---- a handler that looks the gate up again for its Done (Start on one
+   gate value, Done on whatever gate is installed then) breaks both halves as
+   soon as a request straddles a reload ---- *)
+Lemma double_lookup_over_admission :
+  exists gs, mrun (fun _ => false) (fun _ => false) (minit 1)
+    [MOn 0 (LArrive Http); MOn 0 LAdmit; MReload 1; MOn 1 (LArrive Http); MOn 1 LAdmit;
+     MOn 0 LFinish; MRelease 0 Http; MOn 1 (LArrive Otlp); MOn 1 LAdmit] = Some gs
+    /\ map (fun g => (fst g, working (snd g))) gs = [(1, 0); (1, 2)].
+Proof. eexists. split; [vm_compute; reflexivity|reflexivity]. Qed.
+
+Lemma double_lookup_panic :
+  exists gs, mrun (fun _ => false) (fun _ => false) (minit 1)
+    [MOn 0 (LArrive Http); MOn 0 LAdmit; MReload 1; MOn 0 LFinish; MRelease 0 Http] = Some gs
+    /\ sum_of panics gs = 1.
+Proof. eexists. split; [vm_compute; reflexivity|reflexivity]. Qed.
 
 (* ---- the order that was in the source before the repair ---- *)
 Lemma buggy_over_admission :
